@@ -11,9 +11,9 @@ Import ListNotations.
 (* The environment a script starts with is setup()'s list: the documented names (generated from
    the source), the pass-through variables that are set, "exe", then Setup's additions; and it is
    the same for every host environment that agrees on the variables setup() reads. *)
-Theorem C04_env_from_scratch : forall cfg progs sched s p ss e t,
+Theorem C04_env_from_scratch : forall cfg progs sched s p ss e t o,
   nth_error progs s = Some p -> nth_error (scripts (run cfg progs (init progs) sched)) s = Some ss ->
-  In (EvSetup e t) (obs ss) ->
+  In (EvSetup e t o) (obs ss) ->
   e = initial_env (hostenv cfg) s (setup_adds p)
   /\ map fst e = map fst setup_env_head ++ passthrough_present (hostenv cfg) ++ map fst setup_env_tail ++ map fst (setup_adds p)
   /\ (forall h', (forall n, In n host_reads -> host_get h' n = host_get (hostenv cfg) n) ->
@@ -27,14 +27,27 @@ Theorem C04_other_host_variables_invisible : forall h s adds k v,
 Proof. exact initial_env_ignores_other_var. Qed.
 Print Assumptions C04_other_host_variables_invisible.
 
-(* $WORK after setup holds exactly the archive's files (last entry of a name wins), the
-   directories leading to them, and .tmp. *)
-Theorem C04_workdir_exact : forall cfg progs sched s p ss e t,
+(* $WORK after setup holds exactly the archive's files (last entry of a name wins; an entry named
+   $WORK/p is the file p), the directories leading to them, and .tmp; nothing is unpacked outside
+   — provided setup() expands the entry names with the initial environment, which is what the
+   generated constant says about the source now. *)
+Theorem C04_workdir_exact : forall cfg progs sched s p ss e t o,
+  names_see_env cfg = entry_names_see_env ->
   nth_error progs s = Some p -> nth_error (scripts (run cfg progs (init progs) sched)) s = Some ss ->
-  In (EvSetup e t) (obs ss) ->
-  forall q, tree_get t q = expected_node (archive p) q.
+  In (EvSetup e t o) (obs ss) ->
+  o = [] /\ forall q, tree_get t q = expected_node (archive p) q.
 Proof. exact workdir_exact. Qed.
 Print Assumptions C04_workdir_exact.
+
+(* With the entry names expanded while the environment is still empty (the code before the repair)
+   it is false: a file named $WORK/f lands outside the work directory. *)
+Theorem C04_unexpanded_entry_names_refuted :
+  exists cfg p ss e t o,
+    names_see_env cfg = false /\
+    snd (fst (sstep cfg p 0 [] sstate0)) = ss /\ In (EvSetup e t o) (obs ss) /\
+    o <> [] /\ exists q, tree_get t q <> expected_node (archive p) q.
+Proof. exact unexpanded_names_refuted. Qed.
+Print Assumptions C04_unexpanded_entry_names_refuted.
 
 (* Frame: a step of script s changes no other script's component ... *)
 Theorem C04_frame : forall cfg progs st s s',
